@@ -242,4 +242,81 @@ def c18_hook(state):
 
 
 HOOKS = {"c20": c20_hook, "c04": c04_hook, "c18": c18_hook}
-POST = {}
+def _shift_time(t, k):
+    return t if t == "-" else str(int(t) + k)
+
+
+def shift_state(st, k):
+    """parsed state sexp with every time stamp shifted by k"""
+    def oact(o):
+        return [o[0]] + [_shift_time(t, k) for t in o[1:]]
+    jobs = [[[[o[0], _shift_time(o[1], k), _shift_time(o[2], k), o[3]] for o in j[0]], j[1]] for j in st[1]]
+    machs = [[m[0], _shift_time(m[1], k), m[2], m[3], m[4], m[5], [oact(o) for o in m[6]]] for m in st[2]]
+    trans = []
+    for t in st[3]:
+        oc = t[1]
+        if not isinstance(oc, list):
+            oc = _shift_time(oc, k)
+        trans.append([t[0], oc, t[2], t[3], t[4], [oact(o) for o in t[5]]])
+    return [_shift_time(st[0], k), jobs, machs, trans, st[4], st[5]]
+
+
+def c12_shift_post(out, tracer, eps, drv, replay_of):
+    """Translation invariance: the same instance and action sequence started at time 0 and at time K give
+    trajectories that differ exactly by K in every time stamp."""
+    import copy
+    import random
+    import batch
+    import gen
+    import sxdiff
+    import trace
+    rng = random.Random(hash(("shift", len(eps))) % 100000)
+    base = jsl.load_config()
+    out["shift_pairs"] = 0
+    out["shift_pairs_with_outages"] = 0
+    for n in range(max(6, len(eps) // 6)):
+        d, feats = gen.gen_instance(rng, rng.choice(["transport", "buffers", "full", "full"]))
+        K = rng.choice([7, 100, 1000])
+        runs = []
+        acts = None
+        cfgkw = {"early": rng.random() < 0.6, "trunc_active": False}
+        cfg = jsl.with_cfg(base, **cfgkw)
+        seedp = rng.randrange(1 << 30)
+        for start in (0, K):
+            dd = copy.deepcopy(d)
+            dd.setdefault("init_state", {})["start_time"] = start
+            tr = trace.Tracer()
+            if acts is None:
+                pol = gen.Policy(random.Random(seedp), 0.7)
+            else:
+                it = iter(acts)
+                pol = lambda env, it=it: next(it, 1)
+            try:
+                env, end, a, et = batch.run_episode(tr, dd, cfg, pol, max_steps=200)
+            except jsl.Unsupported:
+                end, a = "unsupported", []
+            if acts is None:
+                acts = a
+            finals = [(r.final, r.out.split(" ")[0]) for r in tr.records]
+            runs.append((end, a, finals))
+        (e0, a0, f0), (e1, a1, f1) = runs
+        has_out = bool(d["instance_config"].get("outages"))
+        out["shift_pairs"] += 1
+        out["shift_pairs_with_outages"] += int(has_out)
+        same = (e0 == e1 and len(f0) == len(f1))
+        if same:
+            for (s0, o0), (s1, o1) in zip(f0, f1):
+                if (s0 is None) != (s1 is None) or o0 != o1:
+                    same = False
+                    break
+                if s0 is not None and shift_state(sxdiff.parse(s0), K) != sxdiff.parse(s1):
+                    same = False
+                    break
+        if not same:
+            out["violations"].append({"kind": "shift:differs", "detail": "start_time 0 and %d give trajectories that do not "
+                                      "differ by the offset only (ends %s / %s)" % (K, e0, e1),
+                                      "replay": {"dsl": d, "cfg": cfgkw, "actions": acts, "offset": K},
+                                      "facts": {"has_outages": has_out}})
+
+
+POST = {"c12_shift": c12_shift_post}
